@@ -209,6 +209,130 @@ Proof.
 Qed.
 Print Assumptions C10_immutable_ok_sound.
 
+(* ==== the as-coded transcription (all repairs in) REFINES the specification ====
+   Full statement aimed at (NOT proved in this generality - see the _partial theorems below for what is):
+   for every schema, every well-formed message m, every path p in the domain and every sub value x,
+   the byte-level SetByPath of ProtoEditCoded on the canonical encoding equals the specified edit rendered by encode_msg,
+   and a failed operation leaves the buffer unchanged. *)
+From DG Require Import ProtoEditRefine.
+Definition C10_coded_refines_spec_statement : Prop :=
+  forall S root m p x, wf_msg S root m = true -> blen (encode_msg m) < 2 ^ 63 ->
+  match pset S root m p x with
+  | Some (m', e) => coded_set all_fixes S root (encode_msg m) p (encode_elem x) = CRes 0 e (encode_msg m')
+  | None => exists c e, coded_set all_fixes S root (encode_msg m) p (encode_elem x) = CRes c e (encode_msg m) /\ c <> 0
+  end.
+
+(* PROVED PART 1 - the complete entry point for a field step on the root message (existing value replaced in place /
+   absent field appended at the message end), any singular field kind (scalars, string/bytes, sub-message), every
+   wf message of every schema: search by chained skip, value span, tag for the insertion, splice. *)
+Theorem C10_coded_refines_spec_partial :
+  forall S root m id x m' e md fd,
+  wf_msg S root m = true -> blen (encode_msg m) < 2 ^ 63 ->
+  find_msg S root = Some md -> find_field md id = Some fd -> fd_label fd = LSingular ->
+  pset S root m [PField id] x = Some (m', e) ->
+  coded_set all_fixes S root (encode_msg m) [PField id] (wenc_val (sval x)) = CRes 0 e (encode_msg m').
+Proof. exact coded_set_refines_root_field. Qed.
+Print Assumptions C10_coded_refines_spec_partial.
+
+(* PROVED PART 2 - EVERY DEPTH of messages-in-messages: at the hole located by the path (actx: offsets of the enclosing
+   message tags, span of the old value) "splice the new bytes, then run the coded updateByteLen over the recorded
+   addresses" yields exactly encode_msg of the specified result; existing value or appended absent field.
+   What is missing for the full statement at depth > 1 is only that get_by_path returns these offsets (the chained-skip
+   lemmas C10_search_field_* below are its per-level ingredient), and the list / map steps. *)
+Theorem C10_splice_relen_refines_pset_partial :
+  forall S root m ids x m' e R1 l R2 xo tk ak,
+  wf_msg S root m = true ->
+  actx S root m ids = Some (R1, l, R2, xo, tk) ->
+  pset S root m (map PField ids) x = Some (m', e) ->
+  frames_okE (rev l) xo (new_bytes ids tk x) ->
+  let buf := encode_msg m in
+  let s := (length R1 + length (ctxA (rev l) xo))%nat in
+  let b1 := splice buf s (s + length xo) (new_bytes ids tk x) in
+  relen_coded_g all_fixes b1 (blen b1 - blen buf) false
+    ((ak, PT_FIELD) :: map (fun a => (Z.of_nat (length R1 + a), PT_FIELD)) (frame_addrs (rev l) xo))
+  = encode_msg m' /\ e = negb (match tk with [] => true | _ => false end).
+Proof. exact splice_relen_refines_pset. Qed.
+Print Assumptions C10_splice_relen_refines_pset_partial.
+
+(* searchFieldId by chained skip on ANY well-formed wire records, at any offset of any buffer *)
+Theorem C10_search_field_found :
+  forall fx w1 pre f rest fuel stop,
+  wf_wire w1 = true -> wf_wfield f = true -> no_num (fst f) w1 = true ->
+  blen (pre ++ wenc w1 ++ wenc_field f ++ rest) < 2 ^ 63 ->
+  blen pre + blen (wenc w1) < stop -> (length w1 < fuel)%nat ->
+  search_field fx fuel (pre ++ wenc w1 ++ wenc_field f ++ rest) (blen pre) (fst f) stop
+  = EOk (blen pre + blen (wenc w1), blen pre + blen (wenc w1), true).
+Proof. exact search_field_found. Qed.
+Print Assumptions C10_search_field_found.
+
+Theorem C10_search_field_absent :
+  forall fx w pre rest fuel id,
+  wf_wire w = true -> no_num id w = true ->
+  blen (pre ++ wenc w ++ rest) < 2 ^ 63 -> (length w < fuel)%nat ->
+  search_field fx fuel (pre ++ wenc w ++ rest) (blen pre) id (blen pre + blen (wenc w))
+  = EOk (blen pre + blen (wenc w), blen pre + blen (wenc w), false).
+Proof. exact search_field_absent. Qed.
+Print Assumptions C10_search_field_absent.
+
+(* updateByteLen with the repairs in, over a chain of message ancestors of any depth: exact re-encoding (no field is
+   dropped any more when a message becomes empty) *)
+Theorem C10_relen_coded_g_fields_chain :
+  forall fr xo xn R1 R2 pk, frames_okE fr xo xn ->
+  rs_buf (fold_left (relen_coded_step_g all_fixes)
+                    (map (fun a => (Z.of_nat (length R1 + a), PT_FIELD)) (frame_addrs fr xo))
+                    (mk_rstate (R1 ++ wrapS fr xo xn ++ R2) (blen xn - blen xo) 1 pk))
+  = R1 ++ wrapE fr xn ++ R2.
+Proof. exact relen_coded_g_fields_chain. Qed.
+Print Assumptions C10_relen_coded_g_fields_chain.
+
+(* histories (mirrors C04's history_refines, for the proved fragment): after EVERY prefix of a list of root-field sets
+   the byte-level buffer IS the canonical encoding of the model state *)
+Theorem C10_history_refines_partial :
+  forall S root ops m, wf_msg S root m = true -> ops_in_fragment S root m ops ->
+  forall k, fold_left (coded_set_bytes S root) (firstn k ops) (encode_msg m)
+            = encode_msg (fold_left (spec_set S root) (firstn k ops) m).
+Proof. exact history_refines_root_fields. Qed.
+Print Assumptions C10_history_refines_partial.
+
+(* DOM side after ARBITRARY edit histories (set / unset / set-many, any paths): marshalling the edited tree gives the
+   canonical encoding of the specified state, which decodes to it *)
+Theorem C10_pmarshal_history :
+  forall jk, (forall b, (9 <= length (jk b))%nat) ->
+  forall S root m ops, wf_msg S root m = true ->
+  let mk := fold_left (pstep_total S root) ops m in
+  sizes_okb (VMsg mk) = true ->
+  pmarshal jk mk = encode_msg mk /\ decode_top S root (pmarshal jk mk) = Some mk.
+Proof.
+  intros jk Hjk S root m ops Hwf mk Hs.
+  rewrite (pmarshal_correct jk Hjk mk Hs). split; [reflexivity|].
+  apply decode_top_encode. apply fold_wf. exact Hwf.
+Qed.
+Print Assumptions C10_pmarshal_history.
+
+(* non-vacuity: a root message with a string, an int32 and a sub-message field; replace (1 -> 2-byte length), append an
+   absent scalar, append an absent sub-message: the hypotheses of the history theorem hold and both sides compute *)
+Definition exS2 : schema :=
+  [mk_mdesc [77; 48] [mk_fdesc 1 [115] [115] LSingular (TScalar 9); mk_fdesc 2 [105] [105] LSingular (TScalar 5);
+                      mk_fdesc 3 [109] [109] LSingular (TMsg [77; 49])];
+   mk_mdesc [77; 49] [mk_fdesc 1 [115] [115] LSingular (TScalar 9)]].
+Definition exM2 : pmsg := [(1, VBytes 9 [120])].
+Definition exOps2 : list (Z * pval) :=
+  [(1, VBytes 9 (repeat 121 130%nat)); (2, VScalar 5 300); (3, VMsg [(1, VBytes 9 [122])]); (2, VScalar 5 (-1))].
+Example C10_history_refines_example :
+  wf_msg exS2 [77; 48] exM2 = true /\
+  (fold_left (coded_set_bytes exS2 [77; 48]) exOps2 (encode_msg exM2)
+   = encode_msg (fold_left (spec_set exS2 [77; 48]) exOps2 exM2)) /\
+  (fold_left (spec_set exS2 [77; 48]) exOps2 exM2
+   = [(1, VBytes 9 (repeat 121 130%nat)); (2, VScalar 5 (-1)); (3, VMsg [(1, VBytes 9 [122])])]).
+Proof. vm_compute. repeat split; reflexivity. Qed.
+Example C10_ops_in_fragment_example : ops_in_fragment exS2 [77; 48] exM2 (firstn 2 exOps2).
+Proof.
+  cbn [ops_in_fragment firstn exOps2].
+  repeat split;
+    first [ vm_compute; reflexivity
+          | do 2 eexists; vm_compute; repeat split; reflexivity ].
+Qed.
+
 (* ================================================================== (G) proto/binary Skip from the Go source *)
 (* Skip / SkipFixed32Type / SkipFixed64Type / SkipBytesType are translated from proto/binary/binary_skip.go on every build
    (gen/Gen_protoskip.v).  For the four wire types of proto3 Skip succeeds exactly when the model's wire decoder wdec_val reads one value
